@@ -352,7 +352,11 @@ func checkAgainstModel(t tb, bc behContext, keyPrefix string) bool {
 			if err := matchRes(exp, got, b); err != nil {
 				kind := strings.SplitN(err.Error(), ":", 2)[0]
 				_ = kind
-				violation(t, keyPrefix+classifyMismatch(err.Error()), err.Error(), bc.One)
+				key := keyPrefix + classifyMismatch(err.Error())
+				if strings.HasSuffix(keyPrefix, "!") { // fixed key: the class is identified by the input, not by how it shows
+					key = strings.TrimSuffix(keyPrefix, "!")
+				}
+				violation(t, key, err.Error(), bc.One)
 				return false
 			}
 		}
